@@ -47,13 +47,15 @@ def selectOp : Handler := fun req => do
   let silent := (arr (fieldD inp "silent" (Json.arr #[]))).toOption.getD []     -- ops with nothing to build a request from
   let implJ := Json.mkObj [("list", Json.arr (sortRows ilist).toArray), ("emitted", Json.arr (sortRows iemit).toArray)]
   let modelJ := Json.mkObj [("list", Json.arr (sortRows (listed.map rowJson)).toArray),
-    ("emitted", Json.arr (sortRows ((got.filter fun e => !silent.contains (Json.arr #[str e.2.method, str e.2.path])).map fun e => Json.arr #[str e.2.method, str e.2.path])).toArray)]
+    ("emitted", Json.arr (sortRows (((got.filter fun e => !isWebhook e.2).filter fun e => !silent.contains (Json.arr #[str e.2.method, str e.2.path])).map fun e => Json.arr #[str e.2.method, str e.2.path])).toArray)]
   let _ := model
   -- judge: S ⊆ listed ids (by construction of the case); expected = rows whose LISTED id ∈ S (only) / ∉ S (exclude)
   let rowId (r : Json) : String := match r with | .arr #[.str i, _, _] => i | _ => ""
   let rowMP (r : Json) : Json := match r with | .arr #[_, m, p] => Json.arr #[m, p] | _ => Json.null
   let selS := sel.map String.ofList
-  let want := sortRows ((ilist.filter fun r => if mode == "only" then selS.contains (rowId r) else !selS.contains (rowId r)).map rowMP)
+  -- webhooks are listed but are not client/server operations: they are outside "emitted"
+  let isHook (r : Json) : Bool := match r with | .arr #[_, _, .str p] => p.startsWith "webhooks/" | _ => false
+  let want := sortRows (((ilist.filter fun r => !isHook r).filter fun r => if mode == "only" then selS.contains (rowId r) else !selS.contains (rowId r)).map rowMP)
   let gotI := sortRows iemit
   let identOk (s : Id) : Bool := match s with
     | 'r' :: '#' :: c :: r => (c.isAlpha || c == '_') && r.all (fun c => c.isAlphanum || c == '_')
